@@ -274,6 +274,17 @@ class LayerBuilder:
         self.tables.append(t)
         return t
 
+    def env_data_desc(self, name: str, param_snref: str, env_datas: Sequence[Any]):
+        """env_datas: (short name, all_value or None, [dtc values], [parameters])"""
+        from odxtools.environmentdata import EnvironmentData
+        from odxtools.environmentdatadescription import EnvironmentDataDescription
+        eds = [mk(EnvironmentData, odx_id=self.oid("envdata"), short_name=sn, all_value=av, dtc_values=list(dv),
+                  parameters=self.NamedItemList(params)) for sn, av, dv, params in env_datas]
+        e = mk(EnvironmentDataDescription, odx_id=self.oid("edd"), short_name=name, param_snref=param_snref,
+               env_datas=self.NamedItemList(eds))
+        self.env_data_descs.append(e)
+        return e
+
     # ---- parameters
     def coded_const(self, name: str, value: int, bits: int = 8, byte_position: Optional[int] = None,
                     bit_position: Optional[int] = None, dct=None):
